@@ -87,6 +87,11 @@ func (c ColumnType) Base() ColumnType {
 // reduces Decimal(P, ...) to Decimal32/Decimal64/Decimal128/Decimal256
 // returns c if any errors occur during conversion
 func (c ColumnType) decimalDowncast() ColumnType {
+	switch base := c.Base(); base {
+	case ColumnTypeDecimal32, ColumnTypeDecimal64, ColumnTypeDecimal128, ColumnTypeDecimal256:
+		// Decimal64(S) is Decimal64.
+		return base
+	}
 	if c.Base() != ColumnTypeDecimal {
 		return c
 	}
@@ -111,6 +116,15 @@ func (c ColumnType) decimalDowncast() ColumnType {
 	}
 }
 
+func (c ColumnType) isDecimal() bool {
+	switch c {
+	case ColumnTypeDecimal, ColumnTypeDecimal32, ColumnTypeDecimal64, ColumnTypeDecimal128, ColumnTypeDecimal256:
+		return true
+	default:
+		return false
+	}
+}
+
 // Conflicts reports whether two types conflict.
 func (c ColumnType) Conflicts(b ColumnType) bool {
 	if c == b {
@@ -124,7 +138,7 @@ func (c ColumnType) Conflicts(b ColumnType) bool {
 		(bBase == ColumnTypeEnum16 && c == ColumnTypeInt16) {
 		return false
 	}
-	if cBase == ColumnTypeDecimal || bBase == ColumnTypeDecimal {
+	if cBase.isDecimal() || bBase.isDecimal() {
 		return c.decimalDowncast() != b.decimalDowncast()
 	}
 
